@@ -1,5 +1,5 @@
 (* C11 — peers that stop checking in are declared invalid and dropped; live ones never. *)
-From VP Require Import Base Nonce Store StoreProofs PeersProofs.
+From VP Require Import Base Nonce Store StoreProofs PeersProofs PeersFrame.
 
 (* exactness: the declared set is exactly the candidates (reported-and-registered, or tracked)
    whose judged timestamp (the peer's own LastSeen if reported and registered, else the tracked
@@ -53,6 +53,16 @@ Theorem c11_report_as_set : forall st i now r1 r2 q,
   (forall x, In x r1 <-> In x r2) -> judged_ts st i now r1 q = judged_ts st i now r2 q.
 Proof. exact report_as_set. Qed.
 Print Assumptions c11_report_as_set.
+
+(* "every other tracked peer stays in it": between a node's own keep-alives nothing takes a peer
+   out of its tracked set or puts one in — not time passing (entries may grow older than the
+   window: they are judged at the node's next keep-alive, by the rule above), not the check-ins,
+   registrations or re-registrations of any node, not a peer request, not the ledger *)
+Theorem c11_tracked_written_by_own_keepalives_only : forall X E i ops st,
+  forallb (fun no => negb (writes_peers_of i (snd no))) ops = true ->
+  tracked (srun X E st ops) i = tracked st i.
+Proof. exact tracked_frame_run. Qed.
+Print Assumptions c11_tracked_written_by_own_keepalives_only.
 
 (* non-vacuity: node 1 with peers 2 (keeps checking in), 3 (stops), 9 (unknown) *)
 Example c11_example :
